@@ -41,7 +41,7 @@ def jobs(tier):
                           timeout=240 if q else 1500, note="alias chain built from core objects; links: s=slice, w=whole-register alias, q=single-qubit alias (last); "
                           f"slice bounds {'let constants' if lazy else 'literals'}; oracle: composed start+i*step arithmetic over explicit element lists",
                           functions=FUNCS[:3] + ["Register.__init__", "NamedQubit.__init__", "Register.__getitem__"]))
-    for t in WITH_MAPS + ["t_index", "t_macro_idx", "t_blocks"]:
+    for t in WITH_MAPS + ["t_index", "t_macro_idx"] + ([] if q else ["t_blocks"]):
         out.extend(tjobs(f"{H}:c06_mapfill", t, tier, functions=FUNCS, timeout=200,
                          note=f"{t}: fill_in_map after fill_in_let (and after expand_macros); oracle: meaning unchanged, no alias referenced any more, "
                               "get_used_qubit_indices == reference set"))
